@@ -200,8 +200,12 @@ def collection_cases(shape, kind, spec, values, res):
     # has_child on AoH / hash-of-hashes: exactly the hashes having key a
     if shape in ("aoh", "hoh"):
         for inverted in (False, True):
-            if shape == "aoh" and any(v == "<null-member>" for v in values):
-                continue      # not "a list whose members are hashes"
+            if shape == "aoh" and any(v == "<null-member>" for v in values) \
+                    and (inverted or all(v == "<null-member>"
+                                         for v in values)):
+                # whether a null member "lacks" the key is not said; the
+                # plain form must still find the hashes that have it
+                continue
             if shape == "aoh":
                 ptext = "x[%shas_child(a)]" % ("!" if inverted else "")
             else:
@@ -210,7 +214,7 @@ def collection_cases(shape, kind, spec, values, res):
                       if v is not MISSING and v != "<null-member>"]
             lacking = [i for i, v in enumerate(values) if v is MISSING]
             nulls = [i for i, v in enumerate(values) if v == "<null-member>"]
-            if nulls:
+            if nulls and (inverted or shape != "aoh"):
                 continue      # a null child is not a hash: Unspecified
             exp = ("list", lacking if inverted else having)
             run_case(text, doc, ptext, res, exp,
